@@ -184,6 +184,14 @@ func (p *Program) handlersOf(d *Directive) {
 						for i := 0; i < ms.Len(); i++ {
 							if ms.At(i).Obj().Name() == "ServeHTTP" {
 								if m := p.SSA.MethodValue(ms.At(i)); m != nil {
+									if m.Synthetic != "" {
+										// pointer-receiver wrapper of a value method: analyse the declared method
+										if fo, ok := ms.At(i).Obj().(*types.Func); ok {
+											if decl := p.SSA.FuncValue(fo); decl != nil {
+												m = decl
+											}
+										}
+									}
 									d.Handlers = append(d.Handlers, m)
 									d.HandlerTys = append(d.HandlerTys, ts)
 								}
